@@ -1,5 +1,52 @@
-From HT Require Import Base.Prelude World.World.
-(* placeholder until the frame theorems land *)
+(* C07 — Operations never touch third-party balances and conserve token totals.
+   [touched w o]: the caller, the contract addressed (and the pairs on a route), the designated
+   receiver, and for a provision the LP token's own address (it receives the locked reserved unit of LP
+   supply).  [frame l w w']: every account outside l keeps every balance of every asset.
+   The hypothesis [forall q, w_next w <= q -> w_tokens w q = None] says contract addresses not yet
+   allocated hold no contract (true of every reachable world: addresses are allocated in order); without
+   it the model's CreatePair could overwrite a pre-existing token record ([exec_frame_false] in
+   Proofs/FrameProofs.v is the machine-checked counterexample on such an unreachable world).
+   PARTIAL: conservation is proved for payments and swaps (the only value-moving primitives besides
+   cw20 mint/burn); "LP supply changes only by provision/withdrawal" is given by same_config in
+   C02_settlement (swaps), C04_sys and C05_supply, and monitored on the real contracts. *)
+From HT Require Import Base.Prelude Num.Arith Amm.Formulas Amm.Guards World.World Proofs.LedgerProofs Proofs.FrameProofs.
+
+Theorem C07_frame : forall w o w', (forall q, w_next w <= q -> w_tokens w q = None) ->
+  exec w o = Ok w' -> frame (touched w o) w w'.
+Proof. exact exec_frame_variant. Qed.
+
+(* every operation other than pair creation needs no hypothesis at all *)
+Theorem C07_frame_unconditional : forall w o w', exec w o = Ok w' ->
+  match o with OFacCreatePair _ _ _ _ _ _ _ _ => True | _ => frame (touched w o) w w' end.
+Proof. exact exec_frame_nocreate. Qed.
+
+(* factory operations move no balance *)
+Theorem C07_factory_moves_nothing : forall w o w', (forall q, w_next w <= q -> w_tokens w q = None) -> exec w o = Ok w' ->
+  match o with OFacUpdateConfig _ _ | OFacCreatePair _ _ _ _ _ _ _ _ | OFacAddNative _ _ _ | OFacMigrate _ _ => frame [] w w' | _ => True end.
+Proof. exact fac_ops_frame_variant. Qed.
+
+(* a route touches only the router, the sender, the pairs on the route and the recipient *)
+Theorem C07_route_frame : forall w sender ops m to w', router_exec_ops w sender ops m to = Ok w' ->
+  frame (w_rtr w :: sender :: route_pairs w ops ++ opt_list to) w w'.
+Proof. exact router_exec_ops_frame. Qed.
+
+(* conservation: over any duplicate-free roster containing both ends the per-asset total is unchanged *)
+Theorem C07_payment_conserves : forall w from x n to w' l, pay_asset w from x n to = Ok w' ->
+  NoDup l -> In from l -> In to l -> forall y, sum_bal w' y l = sum_bal w y l.
+Proof. exact pay_asset_conserves. Qed.
+Theorem C07_swap_conserves : forall w p ps funds sender offer amount bp ms to r l,
+  pair_swap w p ps funds sender offer amount bp ms to = Ok r ->
+  NoDup l -> In p l -> In sender l -> (forall t, to = Some t -> In t l) -> forall y, sum_bal (fst r) y l = sum_bal w y l.
+Proof. exact pair_swap_conserves. Qed.
+
+(* a failed transaction changes nothing *)
 Theorem C07_failed_tx_unchanged : forall w o e, exec w o = Err e -> step w o = w.
 Proof. intros w o e H. unfold step. now rewrite H. Qed.
+
+Print Assumptions C07_frame.
+Print Assumptions C07_frame_unconditional.
+Print Assumptions C07_factory_moves_nothing.
+Print Assumptions C07_route_frame.
+Print Assumptions C07_payment_conserves.
+Print Assumptions C07_swap_conserves.
 Print Assumptions C07_failed_tx_unchanged.
